@@ -132,8 +132,10 @@ def run(ctx):
 
     # ---------------------------------------------------------------- C16.4
     if ln_ is not None:
+        kinds_fl = set()
         for d in fl.defs().get(ln_, []):
             e = A.peel(flr._def_expr(d, 0))
+            kinds_fl.add("init" if e[0] == "call" else "step")
             if e[0] == "call":
                 ctx.check(bool(Call("Vec::<T, A>::len", Param(1))(e)), "C16.4", "from_labels:len-init", "len starts as labels.len() (one length octet per label)",
                           "len initialised as %s" % A.show(e), fl.loc(d[0]))
@@ -142,6 +144,8 @@ def run(ctx):
                 ok = inner[0] == "bin" and inner[1].startswith("Add") and A.peel(inner[3])[0] == "cast" and \
                     bool(Call("Label::len", Path("param1.[]"))(A.peel(inner[3])[1]))
                 ctx.check(ok, "C16.4", "from_labels:len-step", "len += label.len() for each label of the input", "len updated as %s" % A.show(e)[:120], fl.loc(d[0]))
+        ctx.check(kinds_fl == {"init", "step"}, "C16.4", "from_labels:len-accumulates", "len = number of labels + the sum of their lengths (both parts present)",
+                  "the length of a name built from labels is computed from %s only" % sorted(kinds_fl), fl.loc())
     wd = prog.fn(WIRE_DN)
     wr = A.Resolver(wd)
     wc = A.Conds(wd, wr)
